@@ -24,6 +24,11 @@
       trunc   `open(path, 'wb')`              (creates / truncates)
       dump    `pickle.dump((data, exp), f)`
       rel     `self.lock.release()`
+      -- the page handler is a script of `FOp`s run between `acq` and `Session.save`: `rmw` (load on first
+      -- use; the data is a private copy), `delete` (`del`: `os.unlink(path)`, OSError ignored, `_data = {}`,
+      -- `loaded = False`), `regen` (`rdel`: `_delete()`; `rrel`: `release_lock()` — the request then goes
+      -- on under a fresh private id, i.e. on another path and another lock file).  Nothing the code does
+      -- ever unlinks the LOCK file: lock identity is the lock file (its inode), see the contract above.
 
     sweeper   (`FileSession.clean_up`, restarted for ever; takes the SAME lock via `acquire_lock(path)`)
       list    `now = self.now(); os.listdir(storage_path)`   (no session file -> next sweep)
@@ -34,6 +39,10 @@
       rel     `self.release_lock(path)`
 
     tick d    the clock advances (timeout = 2 units)
+    fault k   the environment arms a fault for the sweep's next file operation (0: open / pickle.load
+              fails — `_load` traps it and answers None; 1: the stored expiry cannot be compared with
+              `now` — TypeError; 2: `os.unlink` fails — OSError).  1 and 2 propagate out of `clean_up`
+              THROUGH the `finally: release_lock(path)`: the sweep dies, the lock is free.
 
   Ghost: `version` counts dumps; a request remembers the version it loaded (`seen`), the sweeper the
   version it checked; `lost` is set when a dump is based on an overtaken load or when the sweep
@@ -46,13 +55,20 @@ inductive Actor
   | sweep
   | tick (d : Nat)
   | expire (i : Nat)     -- LockChecker timer of request i expires
+  | fault (k : Nat)      -- the environment arms a fault for the sweep: 0 = its next open / pickle.load of the
+                         -- session file fails, 1 = the stored expiry cannot be compared with now(),
+                         -- 2 = its next os.unlink fails
   deriving DecidableEq, Repr
 
 inductive FileC
   | absent | empty | data (v exp : Nat)
   deriving DecidableEq, Repr
 
-inductive Pc | init | gex | acq | openr | load | trunc | dump | rel | done | gone | failed
+/-- what the page handler does inside the locked region -/
+inductive FOp | rmw | delete | regen
+  deriving DecidableEq, Repr
+
+inductive Pc | init | gex | acq | openr | load | del | rdel | rrel | trunc | dump | rel | done | gone | failed
   deriving DecidableEq, Repr
 
 inductive SPc | list | acq | openr | load | unlink | rel | crashed
@@ -60,7 +76,9 @@ inductive SPc | list | acq | openr | load | unlink | rel | crashed
 
 structure Thr where
   pc : Pc := .init
-  tmp : Nat := 0        -- the counter value this request will write
+  prog : List FOp := [.rmw]
+  loaded : Bool := false
+  tmp : Nat := 0        -- the counter in this request's copy of the data
   texp : Nat := 0
   seen : Nat := 0
   deriving DecidableEq, Repr
@@ -71,6 +89,7 @@ structure Sweeper where
   seen : Nat := 0
   err : Bool := false   -- an exception is propagating through the `finally: release`
   sweeps : Nat := 0     -- ghost: number of clean_up invocations started
+  fault : Option Nat := none    -- armed fault
   deriving DecidableEq, Repr
 
 def timeout : Nat := 2
@@ -84,10 +103,12 @@ structure St where
   now : Nat
   version : Nat
   lost : Bool
+  faulted : Bool                -- ghost: a fault was armed at some point
 
-def init (f : FileC) (hasTimeout : Nat → Bool := fun _ => false) : St :=
-  { file := f, flock := none, thr := fun _ => {}, sw := {}, hasTimeout := hasTimeout,
-    now := 0, version := 0, lost := false }
+def init (f : FileC) (hasTimeout : Nat → Bool := fun _ => false) (progs : List (List FOp) := []) : St :=
+  { file := f, flock := none,
+    thr := fun i => match progs[i]? with | some p => { prog := p } | none => {},
+    sw := {}, hasTimeout := hasTimeout, now := 0, version := 0, lost := false, faulted := false }
 
 def setThr (s : St) (i : Nat) (t : Thr) : St :=
   { s with thr := fun j => if j = i then t else s.thr j }
@@ -97,13 +118,31 @@ def setSw (s : St) (w : Sweeper) : St := { s with sw := w }
 /-- program points between `acquire_lock` and the completion of `release_lock` -/
 def inCS (p : Pc) : Bool :=
   match p with
-  | .openr | .load | .trunc | .dump | .rel => true
+  | .openr | .load | .del | .rdel | .rrel | .trunc | .dump | .rel => true
   | _ => false
 
 def swInCS (p : SPc) : Bool :=
   match p with
   | .openr | .load | .unlink | .rel => true
   | _ => false
+
+/-- Thread-local dispatch on the rest of the handler script (the data is a private copy: a
+    read-modify-write of loaded data touches no file); at its end `Session.save`, which reads the clock
+    and writes only when the data were loaded. -/
+def next (now : Nat) : List FOp → Thr → Thr
+  | [], t => if t.loaded then { t with pc := .trunc, prog := [], texp := now + timeout }
+             else { t with pc := .rel, prog := [] }
+  | .rmw :: rest, t =>
+    if t.loaded then next now rest { t with tmp := t.tmp + 1 }
+    else { t with pc := .openr, prog := .rmw :: rest }
+  | .delete :: rest, t => { t with pc := .del, prog := rest }
+  | .regen :: rest, t => { t with pc := .rdel, prog := rest }
+
+/-- the counter `Session.load` finds: an expired or unreadable record is a fresh `{}` -/
+def loadVal (s : St) : Nat :=
+  match s.file with
+  | .data v exp => if exp < s.now then 0 else v
+  | _ => 0
 
 def stepReq (s : St) (i : Nat) : St :=
   let t := s.thr i
@@ -112,23 +151,26 @@ def stepReq (s : St) (i : Nat) : St :=
   | .gex => setThr s i { t with pc := .gone }
   | .acq =>
     match s.flock with
-    | none => setThr { s with flock := some (.req i) } i { t with pc := .openr }
+    | none => setThr { s with flock := some (.req i) } i (next s.now t.prog t)
     | some _ => s                      -- Timeout, sleep, retry
   | .openr =>
     match s.file with
-    | .absent => setThr s i { t with pc := .trunc, tmp := 1, texp := s.now + timeout, seen := s.version }
+    | .absent => setThr s i (next s.now t.prog { t with loaded := true, tmp := 0, seen := s.version })
     | _ => setThr s i { t with pc := .load }
-  | .load =>
-    let v := match s.file with
-      | .data v exp => if exp < s.now then 0 else v
-      | _ => 0
-    setThr s i { t with pc := .trunc, tmp := v + 1, texp := s.now + timeout, seen := s.version }
+  | .load => setThr s i (next s.now t.prog { t with loaded := true, tmp := loadVal s, seen := s.version })
+  | .del =>       -- Session.delete(): os.unlink (OSError ignored), `_data = {}`, `loaded = False`
+    setThr { s with file := .absent } i (next s.now t.prog { t with loaded := false, tmp := 0 })
+  | .rdel => setThr { s with file := .absent } i { t with pc := .rrel }     -- _regenerate: _delete()
+  | .rrel =>      -- … release_lock(); the request goes on under a fresh private id (another path)
+    setThr { s with flock := if s.flock = some (.req i) then none else s.flock } i
+      { t with pc := .done, loaded := false }
   | .trunc => setThr { s with file := .empty } i { t with pc := .dump }
   | .dump =>
     setThr { s with file := .data t.tmp t.texp, version := s.version + 1,
                     lost := s.lost || (t.seen != s.version) } i { t with pc := .rel }
   | .rel =>
-    setThr { s with flock := if s.flock = some (.req i) then none else s.flock } i { t with pc := .done }
+    setThr { s with flock := if s.flock = some (.req i) then none else s.flock } i
+      { t with pc := .done, loaded := false }
   | .done | .gone | .failed => s
 
 def stepSweep (s : St) : St :=
@@ -142,19 +184,24 @@ def stepSweep (s : St) : St :=
     | none => setSw { s with flock := some .sweep } { w with pc := .openr }
     | some _ => s
   | .openr =>
-    match s.file with
+    if w.fault = some 0 then setSw s { w with pc := .rel, fault := none }     -- `_load` traps it: None
+    else match s.file with
     | .absent => setSw s { w with pc := .rel }
     | _ => setSw s { w with pc := .load, seen := s.version }
   | .load =>
-    match s.file with
-    | .data _ exp => if exp < w.snow then setSw s { w with pc := .unlink, seen := s.version }
-                     else setSw s { w with pc := .rel }
+    if w.fault = some 0 then setSw s { w with pc := .rel, fault := none }
+    else match s.file with
+    | .data _ exp =>
+      if w.fault = some 1 then setSw s { w with pc := .rel, err := true, fault := none }   -- TypeError
+      else if exp < w.snow then setSw s { w with pc := .unlink, seen := s.version }
+      else setSw s { w with pc := .rel }
     | _ => setSw s { w with pc := .rel }
   | .unlink =>
-    match s.file with
+    if w.fault = some 2 then setSw s { w with pc := .rel, err := true, fault := none }     -- OSError
+    else match s.file with
     | .absent => setSw s { w with pc := .rel, err := true }
     | _ => setSw { s with file := .absent, lost := s.lost || (w.seen != s.version) } { w with pc := .rel }
-  | .rel =>
+  | .rel =>       -- `finally: self.release_lock(path)`, then the pending exception (if any) goes on
     setSw { s with flock := if s.flock = some .sweep then none else s.flock }
       { w with pc := if w.err then .crashed else .list }
   | .crashed => s
@@ -167,6 +214,7 @@ def step (s : St) (a : Actor) : St :=
   | .expire i =>
     let t := s.thr i
     if t.pc = .acq ∧ s.hasTimeout i = true then setThr s i { t with pc := .failed } else s
+  | .fault k => { setSw s { s.sw with fault := some k } with faulted := true }
 
 def run (s : St) : List Actor → St
   | [] => s
@@ -194,10 +242,11 @@ def actorCode : Option Actor → Nat
   | some .sweep => 1001
   | some (.tick _) => 999
   | some (.expire _) => 998
+  | some (.fault _) => 997
 
 def pcCode : Pc → Nat
   | .init => 0 | .gex => 10 | .acq => 1 | .openr => 2 | .load => 3 | .trunc => 4 | .dump => 5 | .rel => 6
-  | .done => 7 | .gone => 8 | .failed => 9
+  | .done => 7 | .gone => 8 | .failed => 9 | .del => 11 | .rdel => 12 | .rrel => 13
 
 def spcCode : SPc → Nat
   | .list => 0 | .acq => 1 | .openr => 2 | .load => 3 | .unlink => 4 | .rel => 5 | .crashed => 6
@@ -226,16 +275,19 @@ def key (n : Nat) (s : St) : List Nat :=
   obs n s ++ [s.now, s.version] ++
   (List.range n).flatMap (fun i =>
     let t := s.thr i
-    if statusCode t.pc != 0 then [pcCode t.pc] else [pcCode t.pc, t.tmp, t.texp, t.seen]) ++
-  [spcCode s.sw.pc, s.sw.snow, s.sw.seen, if s.sw.err then 1 else 0]
+    if statusCode t.pc != 0 then [pcCode t.pc] else
+    [pcCode t.pc, t.tmp, t.texp, t.seen, if t.loaded then 1 else 0, t.prog.length] ++
+    t.prog.map (fun o => match o with | .rmw => 0 | .delete => 1 | .regen => 2)) ++
+  [spcCode s.sw.pc, s.sw.snow, s.sw.seen, if s.sw.err then 1 else 0,
+   match s.sw.fault with | some k => k + 1 | none => 0]
 
 /-- `(0,0)` the session's data file, `(1,0)` its lock, `(2,0)` the directory listing -/
 def lab (s : St) (a : Actor) : Option (Nat × Nat) :=
   match a with
   | .req i =>
     match (s.thr i).pc with
-    | .init | .gex | .openr | .load | .trunc | .dump => some (0, 0)
-    | .acq | .rel => some (1, 0)
+    | .init | .gex | .openr | .load | .trunc | .dump | .del | .rdel => some (0, 0)
+    | .acq | .rel | .rrel => some (1, 0)
     | _ => none
   | .sweep =>
     match s.sw.pc with
